@@ -1,4 +1,6 @@
 import RustCcModel.Proofs.CtlSimp
+import RustCcModel.Proofs.DroppedMono
+import RustCcModel.Proofs.FinBeforeDrop
 /-! # C08 — `Weak::upgrade` succeeds exactly while the value is alive -/
 namespace RustCc.C08
 open World
@@ -91,5 +93,26 @@ theorem weakDrop_invisible_to_collector (w : World) (r : WRef) :
   cases r with
   | dangling => exact ⟨rfl, rfl⟩
   | to x => simp only; split <;> exact ⟨rfl, rfl⟩
+
+/-! ### Over histories (no panic unwound so far) -/
+
+/-- **`upgrade` never hands out a destroyed, half-destroyed or half-built value**: in every world of every panic-free
+history, if a `Weak` to `x` reports a non-zero `strong_count()` — exactly when `upgrade()` succeeds (`strong_count_spec`,
+`upgrade_some`) — then the allocation of `x` exists and its value is intact: not dropped, not handed to its destructor (the
+collector flags the whole garbage set before the first destructor and the flag is never cleared: `Proofs/DroppedMono.lean`),
+not moved out, not under construction by `new_cyclic`. -/
+theorem upgrade_only_intact (c : Cfg) (nH nW nK : Nat) (w : World) (hc : c.weak = true) (h : ReachableR c nH nW nK w) (x : Id)
+    (hu : w.weakStrong (.to x) ≠ 0) : (w.heap x).boxLive = true ∧ (w.heap x).valLive = true := by
+  have := upgrade_only_alive hc h x hu
+  simpa [Obj.lv] using this
+
+/-- **In every reachable world** (caught panics included) every member of a list the collector is destroying is flagged
+`dropped` for the whole duration of `deallocate_list`, so no `Weak` to any member — destroyed already or not — can be
+upgraded from the destructors. -/
+theorem garbage_set_not_upgradable (c : Cfg) (nH nW nK : Nat) (w : World) (hc : c.weak = true) (h : Reachable c nH nW nK w)
+    (N r : List Id) (d : Bool) (hf : Frame.deallocDrop N r d ∈ w.stack) (x : Id) (hx : x ∈ N) : w.weakStrong (.to x) = 0 := by
+  have := reachable_dd hc h N r d hf x hx
+  unfold weakStrong
+  simp [this]
 
 end RustCc.C08
